@@ -264,6 +264,19 @@ package keeper
 //@ ensures C09/close-positions-keeps-the-liabilities-gap: liabGap(goCtx, p, s, d) == old(liabGap(goCtx, p, s, d))
 //@ ensures C09/close-positions-keeps-the-collateral-gap: collGap(goCtx, p, s, d) == old(collGap(goCtx, p, s, d))
 
+// C09, the owner's stop-loss update: rewrites the position row without touching custody, liabilities or
+// collateral on either side (the take-profit update is not under a stored-state contract: 13 000 paths in line).
+//@ func (msgServer).UpdateStopLoss
+//@ entry
+//@ decabstract
+//@ forall p Int
+//@ forall s Int
+//@ forall d Str
+//@ ensures C09/stop-loss-update-keeps-the-custody-gap: err == nil ==> custodyGap(goCtx, p, s, d) == old(custodyGap(goCtx, p, s, d))
+//@ ensures C09/stop-loss-update-keeps-the-liabilities-gap: err == nil ==> liabGap(goCtx, p, s, d) == old(liabGap(goCtx, p, s, d))
+//@ ensures C09/stop-loss-update-keeps-the-collateral-gap: err == nil ==> collGap(goCtx, p, s, d) == old(collGap(goCtx, p, s, d))
+//@ ensures C09/stop-loss-update-keeps-the-open-counter-in-step: err == nil ==> mtpCountGap(goCtx) == old(mtpCountGap(goCtx))
+
 // A stored position sits under its owner's address and its id.
 //@ rowinv C10,C09/mtpKey table perpetual:types.GetMTPKey row types.MTP : unbech32(row.Address) == key0 && row.Id == key1 && key1 > 0
 
